@@ -47,6 +47,10 @@ pub fn replay(prop: &str, path: &str) -> i32 {
             return 2;
         }
     };
+    if body["log_level"].as_str() == Some("off") {
+        // found by the pass that runs with logging switched off: replay under the same condition
+        log::set_max_level(log::LevelFilter::Off);
+    }
     let key = body["finding_key"].as_str().unwrap_or("").to_string();
     println!("replay of {} finding '{}': {}", prop, key, body["detail"].as_str().unwrap_or(""));
     let r = &body["replay"];
